@@ -1,10 +1,9 @@
 use std::collections::{BTreeMap, HashSet};
 
-use crate::MatrixVectorTypes;
+use crate::{name_to_ident, MatrixVectorTypes};
 use naga::StructMember;
-use proc_macro2::{Literal, Span, TokenStream};
+use proc_macro2::{Literal, TokenStream};
 use quote::quote;
-use syn::Ident;
 
 pub fn global_shader_stages(module: &naga::Module) -> BTreeMap<String, wgpu::ShaderStages> {
     // Collect the shader stages for all entries that access a global variable.
@@ -197,7 +196,7 @@ pub fn rust_type(module: &naga::Module, ty: &naga::Type, format: MatrixVectorTyp
             members: _,
             span: _,
         } => {
-            let name = Ident::new(ty.name.as_ref().unwrap(), Span::call_site());
+            let name = name_to_ident(ty.name.as_ref().unwrap());
             quote!(#name)
         }
         naga::TypeInner::BindingArray { base: _, size: _ } => todo!(),
